@@ -119,6 +119,8 @@ macro "keeps_auto" : tactic => `(tactic| repeat keeps_step)
 theorem keeps_publish (c : Cfg) : Keeps c (publish c) := by unfold publish; keeps_auto
 macro_rules | `(tactic| keeps_leaf) => `(tactic| exact keeps_publish _)
 
+theorem keeps_askNat (c : Cfg) (q : Query) : Keeps c (askNat q) := by unfold askNat; keeps_auto
+macro_rules | `(tactic| keeps_leaf) => `(tactic| exact keeps_askNat _ _)
 theorem keeps_ask (c : Cfg) (q : Query) : Keeps c (ask q) := by unfold ask; keeps_auto
 macro_rules | `(tactic| keeps_leaf) => `(tactic| exact keeps_ask _ _)
 
